@@ -66,6 +66,15 @@ check(
     "DESIGN.md 4/C03",
 )
 
+check(
+    "C16",
+    "other",
+    "bounded symbolic verification of the IPC framing (real frame_from_buffer/read_bytes/write_bytes on bounded symbolic byte strings: an inductive step from any state satisfying the representation invariant, a write/read round trip for every payload in the bound, and read_bytes over arbitrary chunkings followed by EOF) and of the serve loop (real Server.serve with a scripted stub IPCServer; the fault behaviour of each client chosen by the solver; every fault must leave the loop accepting and answering the next client, and no status file behind). Counterexamples replayed over a socketpair / against a real dmypy daemon.",
+    "trusted: z3; struct '!L' modelled as big-endian arithmetic; stubs for socket and IPCServer; payloads non-empty; non-Windows branch; buffer cap 9/12 bytes (frame sizes beyond the cap only through the inductive argument)",
+    "symbolic execution of real Python source with z3 over bounded bit-vector strings; inductive invariant step",
+    "DESIGN.md 4/C16",
+)
+
 ALL = [f"C{i:02d}" for i in range(1, 21)]
 
 
